@@ -117,7 +117,7 @@ def run_tlc(module, cfg=None, workers=None, timeout=600, simulate=None, depth=No
             shutil.copy(path, dst)
     cfg = cfg or (module + ".cfg")
     meta = os.path.join(wd, "meta-" + module + "-" + str(os.getpid()) + "-" + str(int(time.time() * 1000) % 100000))
-    cmd = ["java", "-XX:+UseParallelGC"]
+    cmd = ["java", "-XX:+UseParallelGC", "-Djava.io.tmpdir=" + wd]   # (TLC leaves a tlc-* directory per run in the JVM's tmpdir)
     cmd.append("-Xmx" + (heap or "10g"))
     cmd += ["-Xss256m"]
     if deque:
